@@ -234,9 +234,24 @@ class U(core.Unit):
         return 'error' not in o and len(o['tab']) >= 2 and len(o['tab'][0]) >= 2
 
     def shrink(self, case):
+        """at most 16 candidates per round (each case costs 1-3 s of coqc): cut both annotations at an earlier grid time, or merge
+        a few neighbouring segments"""
+        def cut(bd, lb, t):
+            keep = [x for x in bd if x < t]
+            return keep + [t], lb[:len(keep)]
+        end, fs = case['rb'][-1], case['fs']
+        for t in (end / 2, 3 * end / 4, end - fs):
+            t = math.floor(t / fs) * fs
+            if 0 < t < end:
+                c = dict(case)
+                c['rb'], c['rl'] = cut(case['rb'], case['rl'], t)
+                c['eb'], c['el'] = cut(case['eb'], case['el'], t)
+                yield c
         for key, lk in (('rb', 'rl'), ('eb', 'el')):
             bd, lb = case[key], case[lk]
-            for i in range(1, len(bd) - 1):
+            inner = list(range(1, len(bd) - 1))
+            step = max(1, len(inner) // 6)
+            for i in inner[::step][:6]:
                 c = dict(case)
                 c[key] = bd[:i] + bd[i + 1:]
                 c[lk] = lb[:i] + lb[i + 1:]
